@@ -74,14 +74,14 @@ theorem rstep_var (hs : SetupOk S) (nm : Bytes) (bd : Option Nat) (sp : Span) (a
     Out S (evalExpr P S.cfg (n + 1) (.var nm bd sp) a) (evalExpr P plain (n + 1) (.var nm bd sp) b) ∧
       Inv2 P S (evalExpr P plain (n + 1) (.var nm bd sp) b).2 := by
   simp only [evalExpr]
-  have e : bd.bind (fun id => lookupEnv id a.env) = bd.bind (fun id => lookupEnv id b.env) := by
+  have e : bd.bind (fun id => lookupEnv P.dscope id a.env) = bd.bind (fun id => lookupEnv P.dscope id b.env) := by
     cases bd with
     | none => rfl
     | some id =>
       simp only [eOk, Bool.not_eq_true'] at he
-      exact lookup_rel hs.d12 he _ _ hr.2.2
+      exact lookup_rel hs.d12 he _ _ _ hr.2.2
   rw [e]
-  cases bd.bind (fun id => lookupEnv id b.env) with
+  cases bd.bind (fun id => lookupEnv P.dscope id b.env) with
   | some v => exact ⟨Or.inr ⟨rfl, hr⟩, hi⟩
   | none => exact ⟨Or.inl (Or.inr rfl), hi⟩
 
@@ -127,10 +127,10 @@ theorem rstep_generic (hs : SetupOk S) (ih : Sim P S n) (e : Expr) (a b : St V)
   obtain ⟨ho, hq⟩ := ih.list (children e) a b hc hr hi
   chain (evalList P S.cfg n (children e) a), (evalList P plain n (children e) b), ho, hq
   simp only [finishNode]
-  have e1 : readAll s1.env (interpIds e) = readAll s2.env (interpIds e) :=
-    readAll_rel hs.d12 hrel'.2.2 _ (eOk_interpIds e he)
+  have e1 : readAll P.dscope s1.env (interpIds e) = readAll P.dscope s2.env (interpIds e) :=
+    readAll_rel hs.d12 _ hrel'.2.2 _ (eOk_interpIds e he)
   rw [e1]
-  cases readAll s2.env (interpIds e) with
+  cases readAll P.dscope s2.env (interpIds e) with
   | none => exact ⟨Or.inl (Or.inr rfl), hq⟩
   | some rs => exact ⟨Or.inr ⟨rfl, hrel'⟩, hq⟩
 
@@ -154,7 +154,7 @@ theorem rstep_userCall (hs : SetupOk S) (ih : Sim P S n) (args : List Expr) (f :
                 match bindParams fd.params vs with
                 | none => (.error .panic, st1)
                 | some slots =>
-                    match execBlock P S.cfg n fd.body { st1 with env := slots :: st1.env, fns := [] :: st1.fns } with
+                    match execBlock P S.cfg n fd.body { st1 with env := ⟨paramTag P.dscope fd.params, slots⟩ :: st1.env, fns := [] :: st1.fns } with
                     | (.error e, st3) => (.error e, { st3 with env := st3.env.drop 1, fns := st3.fns.drop 1 })
                     | (.ok fl, st3) =>
                         match fl with
@@ -170,7 +170,7 @@ theorem rstep_userCall (hs : SetupOk S) (ih : Sim P S n) (args : List Expr) (f :
                 match bindParams fd.params vs with
                 | none => (.error .panic, st1)
                 | some slots =>
-                    match execBlock P plain n fd.body { st1 with env := slots :: st1.env, fns := [] :: st1.fns } with
+                    match execBlock P plain n fd.body { st1 with env := ⟨paramTag P.dscope fd.params, slots⟩ :: st1.env, fns := [] :: st1.fns } with
                     | (.error e, st3) => (.error e, { st3 with env := st3.env.drop 1, fns := st3.fns.drop 1 })
                     | (.ok fl, st3) =>
                         match fl with
@@ -187,7 +187,7 @@ theorem rstep_userCall (hs : SetupOk S) (ih : Sim P S n) (args : List Expr) (f :
                 match bindParams fd.params vs with
                 | none => (.error .panic, st1)
                 | some slots =>
-                    match execBlock P plain n fd.body { st1 with env := slots :: st1.env, fns := [] :: st1.fns } with
+                    match execBlock P plain n fd.body { st1 with env := ⟨paramTag P.dscope fd.params, slots⟩ :: st1.env, fns := [] :: st1.fns } with
                     | (.error e, st3) => (.error e, { st3 with env := st3.env.drop 1, fns := st3.fns.drop 1 })
                     | (.ok fl, st3) =>
                         match fl with
@@ -217,10 +217,10 @@ theorem rstep_userCall (hs : SetupOk S) (ih : Sim P S n) (args : List Expr) (f :
     | none => exact ⟨Or.inr ⟨rfl, hrel'⟩, hq⟩
     | some slots =>
       simp only []
-      have hr2 : Rel S { s1 with env := slots :: s1.env, fns := [] :: s1.fns }
-          { s2 with env := slots :: s2.env, fns := [] :: s2.fns } :=
-        ⟨hrel'.1, by have := hrel'.2.1; simp only at this; simp [this], EnvRel.push slots hrel'.2.2⟩
-      have hi2 : Inv2 P S { s2 with env := slots :: s2.env, fns := [] :: s2.fns } :=
+      have hr2 : Rel S { s1 with env := ⟨paramTag P.dscope fd.params, slots⟩ :: s1.env, fns := [] :: s1.fns }
+          { s2 with env := ⟨paramTag P.dscope fd.params, slots⟩ :: s2.env, fns := [] :: s2.fns } :=
+        ⟨hrel'.1, by have := hrel'.2.1; simp only at this; simp [this], EnvRel.push ⟨paramTag P.dscope fd.params, slots⟩ hrel'.2.2⟩
+      have hi2 : Inv2 P S { s2 with env := ⟨paramTag P.dscope fd.params, slots⟩ :: s2.env, fns := [] :: s2.fns } :=
         ⟨⟨FnsOk.push hq.1.1 (by intro fd hfd; cases hfd), hq.1.2⟩,
          by
           intro sc hsc
@@ -229,8 +229,8 @@ theorem rstep_userCall (hs : SetupOk S) (ih : Sim P S n) (args : List Expr) (f :
           · exact hq.2.1 sc h',
          hq.2.2⟩
       obtain ⟨ho3, hq3⟩ := ih.block fd.body _ _ fd.id hbody hbody2 (by rw [hid]; exact hf) hr2 hi2
-      generalize execBlock P plain n fd.body { s2 with env := slots :: s2.env, fns := [] :: s2.fns } = r2 at ho3 hq3 ⊢
-      generalize execBlock P S.cfg n fd.body { s1 with env := slots :: s1.env, fns := [] :: s1.fns } = r1 at ho3 ⊢
+      generalize execBlock P plain n fd.body { s2 with env := ⟨paramTag P.dscope fd.params, slots⟩ :: s2.env, fns := [] :: s2.fns } = r2 at ho3 hq3 ⊢
+      generalize execBlock P S.cfg n fd.body { s1 with env := ⟨paramTag P.dscope fd.params, slots⟩ :: s1.env, fns := [] :: s1.fns } = r1 at ho3 ⊢
       obtain ⟨x2, t2⟩ := r2
       obtain ⟨x1, t1⟩ := r1
       have hpop := inv2_pop hq3
@@ -343,9 +343,9 @@ theorem rstep_expr (hs : SetupOk S) (ih : Sim P S n) : ∀ (e : Expr) (a b : St 
           simp only []
           obtain ⟨ho2, hq2⟩ := ih.list path s1 s2 hlo.2 hrel' hq
           chain (evalList P S.cfg n path s1), (evalList P plain n path s2), ho2, hq2
-          have el : lookupEnv root s1.env = lookupEnv root s2.env := lookup_rel hs.d12 hlo.1 _ _ hrel'.2.2
+          have el : lookupEnv P.dscope root s1.env = lookupEnv P.dscope root s2.env := lookup_rel hs.d12 hlo.1 _ _ _ hrel'.2.2
           rw [el]
-          cases lookupEnv root s2.env with
+          cases lookupEnv P.dscope root s2.env with
           | none => exact ⟨Or.inl (Or.inr rfl), hq2⟩
           | some old =>
             simp only []
@@ -354,8 +354,8 @@ theorem rstep_expr (hs : SetupOk S) (ih : Sim P S n) : ∀ (e : Expr) (a b : St 
             | ok nr =>
               obtain ⟨new, res⟩ := nr
               simp only []
-              have ha := assign_rel (v1 := new) (v2 := new) (d1_of_d2 hs hlo.1) (Or.inr rfl) _ _ hrel'.2.2
-              cases e1 : assignEnv root new s1.env <;> cases e2 : assignEnv root new s2.env <;>
+              have ha := assign_rel (v1 := new) (v2 := new) (d1_of_d2 hs hlo.1) (Or.inr rfl) P.dscope _ _ hrel'.2.2
+              cases e1 : assignEnv P.dscope root new s1.env <;> cases e2 : assignEnv P.dscope root new s2.env <;>
                 simp only [e1, e2, ORel] at ha
               · exact ⟨Or.inr ⟨rfl, hrel'⟩, hq2⟩
               · exact ⟨Or.inr ⟨rfl, ⟨hrel'.1, hrel'.2.1, ha⟩⟩, hq2⟩
@@ -407,8 +407,8 @@ theorem rstep_stmt (hs : SetupOk S) (ih : Sim P S n) : ∀ (s : Stmt) (a b : St 
       | some l =>
         simp only [Option.bind_some]
         have hd : S.D1 l = false := hok.2.2 hsk l rfl
-        have ha := assign_rel (v1 := v) (v2 := v) hd (Or.inr rfl) _ _ hrel'.2.2
-        cases e1 : assignEnv l v s1.env <;> cases e2 : assignEnv l v s2.env <;> simp only [e1, e2, ORel] at ha
+        have ha := assign_rel (v1 := v) (v2 := v) hd (Or.inr rfl) P.dscope _ _ hrel'.2.2
+        cases e1 : assignEnv P.dscope l v s1.env <;> cases e2 : assignEnv P.dscope l v s2.env <;> simp only [e1, e2, ORel] at ha
         · exact ⟨Or.inl (Or.inr rfl), hq⟩
         · exact ⟨Or.inr ⟨rfl, ⟨hrel'.1, hrel'.2.1, ha⟩⟩, hq⟩
   | .assignIndex t e (some j) _, a, b, f, i, _, _, hc, hok, hf, hr, hi => by
@@ -430,9 +430,9 @@ theorem rstep_stmt (hs : SetupOk S) (ih : Sim P S n) : ∀ (s : Stmt) (a b : St 
         simp only []
         obtain ⟨ho2, hq2⟩ := ih.list path s1 s2 hlo.2 hrel' hq
         chain (evalList P S.cfg n path s1), (evalList P plain n path s2), ho2, hq2
-        have el : lookupEnv root s1.env = lookupEnv root s2.env := lookup_rel hs.d12 hlo.1 _ _ hrel'.2.2
+        have el : lookupEnv P.dscope root s1.env = lookupEnv P.dscope root s2.env := lookup_rel hs.d12 hlo.1 _ _ _ hrel'.2.2
         rw [el]
-        cases lookupEnv root s2.env with
+        cases lookupEnv P.dscope root s2.env with
         | none => exact ⟨Or.inl (Or.inr rfl), hq2⟩
         | some old =>
           simp only []
@@ -440,8 +440,8 @@ theorem rstep_stmt (hs : SetupOk S) (ih : Sim P S n) : ∀ (s : Stmt) (a b : St 
           | error er => exact ⟨Or.inr ⟨rfl, hrel'⟩, hq2⟩
           | ok new =>
             simp only []
-            have ha := assign_rel (v1 := new) (v2 := new) (d1_of_d2 hs hlo.1) (Or.inr rfl) _ _ hrel'.2.2
-            cases e1 : assignEnv root new s1.env <;> cases e2 : assignEnv root new s2.env <;>
+            have ha := assign_rel (v1 := new) (v2 := new) (d1_of_d2 hs hlo.1) (Or.inr rfl) P.dscope _ _ hrel'.2.2
+            cases e1 : assignEnv P.dscope root new s1.env <;> cases e2 : assignEnv P.dscope root new s2.env <;>
               simp only [e1, e2, ORel] at ha
             · exact ⟨Or.inr ⟨rfl, hrel'⟩, hq2⟩
             · exact ⟨Or.inr ⟨rfl, ⟨hrel'.1, hrel'.2.1, ha⟩⟩, hq2⟩
@@ -551,7 +551,7 @@ theorem quiet_assignExisting {e : Expr} (hq : Quiet P e) (m : Nat) (st : St V) (
     (sid : Option Nat) (sp : Span) :
     (Bad (execStmt P plain m (.assignExisting vr vs e (some l) sid sp) st).1 ∧
         (execStmt P plain m (.assignExisting vr vs e (some l) sid sp) st).2 = st) ∨
-      ∃ val env', assignEnv l val st.env = some env' ∧
+      ∃ val env', assignEnv P.dscope l val st.env = some env' ∧
         execStmt P plain m (.assignExisting vr vs e (some l) sid sp) st = (.ok .normal, { st with env := env' }) := by
   cases m with
   | zero => exact Or.inl ⟨Or.inl (by simp [execStmt]), by simp [execStmt]⟩
@@ -566,7 +566,7 @@ theorem quiet_assignExisting {e : Expr} (hq : Quiet P e) (m : Nat) (st : St V) (
     · simp only at hv
       subst hv
       simp only [Option.bind_some]
-      cases ha : assignEnv l v s'.env with
+      cases ha : assignEnv P.dscope l v s'.env with
       | none => exact Or.inl ⟨Or.inr rfl, rfl⟩
       | some env' => exact Or.inr ⟨v, env', ha, rfl⟩
     · rcases hb with hb | hb <;> (simp only at hb; subst hb)
@@ -692,7 +692,7 @@ theorem rstep_stmts (hs : SetupOk S) (ih : Sim P S n) : ∀ (ss : List Stmt) (a 
             · rw [hv]
               simp only []
               have hr2 : Rel S a { b with trace := i :: b.trace, env := env' } :=
-                ⟨hr.1, hr.2.1, assign_plain hd _ _ _ hr.2.2 hae⟩
+                ⟨hr.1, hr.2.1, assign_plain hd _ _ _ _ hr.2.2 hae⟩
               have hi2 : Inv2 P S { b with trace := i :: b.trace, env := env' } := hi'
               exact ih.stmts ss a _ f hc2' hok2 hf hr2 hi2
 
@@ -724,10 +724,10 @@ theorem rstep_block (ih : Sim P S n) (ss : List Stmt) (a b : St V) (f : Nat)
     Out S (execBlock P S.cfg (n + 1) ss a) (execBlock P plain (n + 1) ss b) ∧
       Inv2 P S (execBlock P plain (n + 1) ss b).2 := by
   simp only [execBlock]
-  have hr1 : Rel S { a with env := [] :: a.env, fns := hoist ss :: a.fns }
-      { b with env := [] :: b.env, fns := hoist ss :: b.fns } :=
-    ⟨hr.1, by simp [hr.2.1], EnvRel.push [] hr.2.2⟩
-  have hi1 : Inv2 P S { b with env := [] :: b.env, fns := hoist ss :: b.fns } :=
+  have hr1 : Rel S { a with env := ⟨blockTag P.sscope ss, []⟩ :: a.env, fns := hoist ss :: a.fns }
+      { b with env := ⟨blockTag P.sscope ss, []⟩ :: b.env, fns := hoist ss :: b.fns } :=
+    ⟨hr.1, by simp [hr.2.1], EnvRel.push ⟨blockTag P.sscope ss, []⟩ hr.2.2⟩
+  have hi1 : Inv2 P S { b with env := ⟨blockTag P.sscope ss, []⟩ :: b.env, fns := hoist ss :: b.fns } :=
     ⟨⟨FnsOk.push hi.1.1 (hoist_ok true ss hcs), hi.1.2⟩,
      by
       intro sc hsc
@@ -736,8 +736,8 @@ theorem rstep_block (ih : Sim P S n) (ss : List Stmt) (a b : St V) (f : Nat)
       · exact hi.2.1 sc h',
      hi.2.2⟩
   obtain ⟨ho, hq⟩ := ih.stmts ss _ _ f hcs hok hf hr1 hi1
-  generalize execStmts P plain n ss { b with env := [] :: b.env, fns := hoist ss :: b.fns } = r2 at ho hq ⊢
-  generalize execStmts P S.cfg n ss { a with env := [] :: a.env, fns := hoist ss :: a.fns } = r1 at ho ⊢
+  generalize execStmts P plain n ss { b with env := ⟨blockTag P.sscope ss, []⟩ :: b.env, fns := hoist ss :: b.fns } = r2 at ho hq ⊢
+  generalize execStmts P S.cfg n ss { a with env := ⟨blockTag P.sscope ss, []⟩ :: a.env, fns := hoist ss :: a.fns } = r1 at ho ⊢
   obtain ⟨x2, s2⟩ := r2
   obtain ⟨x1, s1⟩ := r1
   refine ⟨?_, inv2_pop hq⟩
